@@ -41,6 +41,7 @@ package chain
 //@   props C17 C07
 //@   modifies g.GenesisSeed
 //@   ensures [C17,C07:chain-info-reads-only-chain-parameters-not-membership] i != nil && i.ID == g.ID && i.Period == g.Period && i.Scheme == g.Scheme.Name && i.GenesisTime == g.GenesisTime && i.GenesisSeed == g.GenesisSeed && ref(i.PublicKey) == keyOf(g.PublicKey)
+//@   ensures [C17:chain-info-of-a-group-without-a-cached-seed-carries-the-computed-one] i.GenesisSeed != nil && (old(g.GenesisSeed) != nil ==> i.GenesisSeed == old(g.GenesisSeed))
 
 //@ extern encoding/json.Unmarshal(data, v) (err)
 //@   trusted decodes into the value v points to; touches nothing else reachable by the functions under contract except through v
